@@ -12,7 +12,9 @@ import (
 	"encoding/json"
 	"fmt"
 	"math/rand"
+	"net/netip"
 	"sort"
+	"sync"
 	"time"
 
 	"github.com/mycoria/mycoria/config"
@@ -52,10 +54,40 @@ type run struct {
 	steps   []string
 	drift   int
 	deliv   int
+	// sequential: finish drains the network after each origin's announcements
+	sequential bool
+}
+
+// idsOverride: identities for the next meshes (nil: the pooled identities, all of one continent)
+var idsOverride []*m.Address
+
+var (
+	farMu  sync.Mutex
+	farIDs []*m.Address
+)
+
+// farIdentities returns n identities of another continent (mined once, in parallel).
+func farIdentities(n int) []*m.Address {
+	farMu.Lock()
+	defer farMu.Unlock()
+	if len(farIDs) < n {
+		out := make([]*m.Address, n-len(farIDs))
+		var wg sync.WaitGroup
+		for i := range out {
+			wg.Add(1)
+			go func(i int) {
+				defer wg.Done()
+				out[i] = world.NewIdentity(netip.MustParsePrefix("fd40::/12")) // North America
+			}(i)
+		}
+		wg.Wait()
+		farIDs = append(farIDs, out...)
+	}
+	return farIDs[:n]
 }
 
 func newRun(c *vf.Ctx, n int, edges []mesh.Edge, cfg func(i int) config.Store, desc map[string]any) (*run, error) {
-	ms, err := mesh.New(n, edges, mesh.Opts{Cfg: cfg})
+	ms, err := mesh.New(n, edges, mesh.Opts{Cfg: cfg, IDs: idsOverride})
 	if err != nil {
 		return nil, err
 	}
@@ -165,6 +197,17 @@ func (r *run) finish(origins []int, perLink bool, rng *rand.Rand, maxDeliver int
 			for k := 0; rng != nil && k < rng.Intn(4) && r.ms.W.NInflight() > 0; k++ {
 				r.deliverIdx(rng.Intn(r.ms.W.NInflight()))
 			}
+		}
+		// one after the other: the network drains before the next router announces
+		for r.sequential && r.ms.W.NInflight() > 0 {
+			if r.deliv > maxDeliver {
+				return false
+			}
+			i := 0
+			if rng != nil {
+				i = rng.Intn(r.ms.W.NInflight())
+			}
+			r.deliverIdx(i)
 		}
 	}
 	for r.ms.W.NInflight() > 0 {
@@ -557,6 +600,59 @@ func run0(c *vf.Ctx) {
 		}
 	}
 	b.validate(c, "meshes-rest")
+	// two continents: a few routers of one continent in a dense mesh (every router linked to its three neighbours on
+	// either side of a ring) with many routers of another - the table keeps routes to the other continent under a
+	// budget of its own
+	b = &batch{}
+	for vi, near := range []int{1, 3, 1, 3} {
+		// the routers announce one after the other (the network drains in between), or all at about the same time
+		oneByOne := vi < 2
+		if !c.Thorough() && vi != 0 {
+			continue
+		}
+		tcSizes := []int{16}
+		if c.Thorough() {
+			tcSizes = []int{12, 14, 16}
+		}
+		for _, n := range tcSizes {
+			var raw [][]int
+			for i := 1; i <= n; i++ {
+				for d := 1; d <= 3; d++ {
+					j := (i-1+d)%n + 1
+					raw = append(raw, []int{min(i, j), max(i, j)})
+				}
+			}
+			edges := toEdges(raw, rng, true)
+			ids := append([]*m.Address(nil), mesh.Identities(near)...)
+			ids = append(ids, farIdentities(n-near)...)
+			rng.Shuffle(len(ids), func(i, j int) { ids[i], ids[j] = ids[j], ids[i] })
+			idsOverride = ids
+			all := make([]int, n)
+			for i := range all {
+				all[i] = i + 1
+			}
+			r, err := newRun(c, n, edges, nil, map[string]any{"family": "two-continents", "n": n, "near": near, "edges": raw, "one_after_the_other": oneByOne})
+			idsOverride = nil
+			if err == nil {
+				r.sequential = oneByOne
+			}
+			if err != nil {
+				c.Fatal("mesh two-continents/%d: %v", n, err)
+			}
+			srng := rand.New(rand.NewSource(c.Seed*1000 + int64(near)))
+			if !r.finish(all, true, srng, 200000) {
+				c.Violation(vf.Key("termination", "two-continents"), fmt.Sprintf("flooding did not terminate within 200000 deliveries in a dense mesh of %d routers of two continents", n), map[string]any{"edges": raw}, nil)
+				continue
+			}
+			if len(r.ms.W.Panics) > 0 {
+				c.Violation(vf.Key("panic", "two-continents"), fmt.Sprintf("a worker panicked while flooding a dense mesh of %d routers of two continents: %v", n, r.ms.W.Panics[0]), map[string]any{"edges": raw}, nil)
+			}
+			b.add(r)
+			c.Distinct(fmt.Sprintf("two-continents|%d|%d|%v", n, near, oneByOne))
+			c.Logf("T mesh two-continents n=%d near=%d: %d deliveries, %d events", n, near, r.deliv, len(r.events))
+		}
+	}
+	b.validate(c, "meshes-two-continents")
 	concurrentRelays(c, rng)
 }
 
